@@ -24,7 +24,7 @@ pub enum Snippet {
 const BAD: &[&str] = &["var = 3;", "fn f( { }", "print(1;", "class { }", "\"unterminated", "var ok_before = 1; print(ok_before; var never = 2;", "}", "return 1;"];
 
 const MODULES: &[(&str, &str)] = &[
-    ("ma", "print(\"load ma\");\nvar tag = \"ma\";\nvar count = 0;\nfn bump() { count = count + 1; return count; }\n"),
+    ("ma", "print(\"load ma\");\nvar tag = \"ma\";\nvar count = 0;\nfn bump() { count = count + 1; return count; }\nfn fail() { return nil + 1; }\n"),
     ("mb", "print(\"load mb\");\nimport \"ma\";\nvar tag = \"mb\";\nfn both() { return [tag, ma.tag, ma.bump()]; }\n"),
 ];
 
@@ -48,6 +48,7 @@ fn parse_free_modules() -> Vec<(String, ModuleSrc)> {
             Stmt::expr(Expr::assign_var("count", Expr::bin(BinOp::Add, Expr::var("count"), Expr::Num(1.0)))),
             ret(Expr::var("count")),
         ]),
+        fdef("fail", vec![ret(Expr::bin(BinOp::Add, Expr::Nil, Expr::Num(1.0)))]),
     ];
     let mb = vec![
         pr("load mb"),
@@ -87,18 +88,70 @@ pub fn history(bytes: &[u8]) -> (Vec<Snippet>, Vec<&'static str>) {
                 failed_before = true;
             }
             2 => {
+                // a global defined before the reset must be gone after it, a module loads afresh
+                v.push(Snippet::Code(vec![Stmt::var("before_reset", Some(Expr::str("defined before reset")))], "code"));
+                if g.rd.flag() {
+                    v.push(Snippet::Code(
+                        vec![
+                            Stmt::new(StmtKind::Import("ma".into(), None)),
+                            Stmt::print(Expr::invoke(Expr::var("ma"), "fail", vec![])),
+                        ],
+                        "throw_in_module_function",
+                    ));
+                    labels.push("throw_in_module_function");
+                    failed_before = true;
+                }
                 v.push(Snippet::Reset);
                 labels.push("reset");
                 // the generator forgets every global: they are gone
                 g.forget_globals();
+                v.push(Snippet::Code(
+                    vec![
+                        Stmt::new(StmtKind::Try(
+                            vec![Stmt::print(Expr::var("before_reset"))],
+                            Some(("er".into(), vec![Stmt::print(Expr::callv("type", vec![Expr::var("er")]))])),
+                            None,
+                        )),
+                        Stmt::new(StmtKind::Import("ma".into(), None)),
+                        Stmt::print(Expr::invoke(Expr::var("ma"), "bump", vec![])),
+                        Stmt::print(Expr::callv("type", vec![Expr::invoke(Expr::var("Error"), "new", vec![Expr::Num(1.0)])])),
+                    ],
+                    "probe_after_reset",
+                ));
+                labels.push("probe_after_reset");
             }
             3..=7 => {
                 // a snippet that fails at run time after completing some definitions
                 let k0 = 1 + g.rd.below(2);
                 let mut s = g.stmts(k0);
-                let kind = g.rd.below(8);
+                let kind = g.rd.below(11);
                 let tag: &'static str;
                 match kind {
+                    8 => {
+                        // the failure happens in another fiber while the root fiber sits inside a
+                        // try block: the root's handler must not outlive the run
+                        let handler = if g.rd.flag() {
+                            (Some(("ex".to_string(), vec![Stmt::print(Expr::str("must not catch"))])), None)
+                        } else {
+                            (None, Some(vec![Stmt::print(Expr::str("root finally does not run: the run is over"))]))
+                        };
+                        s.push(Stmt::new(StmtKind::Block(vec![
+                            Stmt::var("fbz", Some(Expr::invoke(Expr::var("Fiber"), "new", vec![Expr::Lambda(Rc::new(FnDef {
+                                name: std::cell::RefCell::new("lambda-0".into()),
+                                params: vec![],
+                                body: Body::Block(vec![Stmt::new(StmtKind::Throw(Expr::str("dies in fiber")))]),
+                                kind: FnKind::Lambda,
+                            }))]))),
+                            Stmt::new(StmtKind::Try(vec![Stmt::print(Expr::invoke(Expr::var("fbz"), "call", vec![]))], handler.0, handler.1)),
+                        ])));
+                        tag = "throw_in_fiber_under_root_try";
+                    }
+                    9 | 10 => {
+                        // the failure happens inside a function of an imported module
+                        s.push(Stmt::new(StmtKind::Import("ma".into(), None)));
+                        s.push(Stmt::print(Expr::invoke(Expr::var("ma"), "fail", vec![])));
+                        tag = "throw_in_module_function";
+                    }
                     0 => {
                         s.push(Stmt::new(StmtKind::Throw(Expr::str("top-level throw"))));
                         tag = "throw_top";
@@ -299,8 +352,16 @@ impl Property for C15 {
         for l in &labels {
             ctx.label(&format!("gen:{}", l));
         }
-        let mods_text: Vec<(String, String)> = MODULES.iter().map(|(a, b)| (a.to_string(), b.to_string())).collect();
+        // the module texts are the rendered ASTs, so that lines agree
         let mods_ast = parse_free_modules();
+        let mods_text: Vec<(String, String)> = mods_ast
+            .iter()
+            .map(|(p, m)| match m {
+                ModuleSrc::Ast(b) => (p.clone(), render(b)),
+                ModuleSrc::Bad(t) => (p.clone(), t.clone()),
+            })
+            .collect();
+        let _ = MODULES;
         let rcfg = RefCfg::default();
         let (mut sh, mut rctx, mut rmain) = new_interp(&rcfg, &mods_ast);
         let mut session = Session::new(RunCfg { fuel: Some(3_000_000), modules: mods_text.clone(), ..RunCfg::default() });
